@@ -30,8 +30,15 @@ namespace details {
         // queue is empty, if both point to the very same element
         // if read_ptr_ != write_ptr_, the ring is not empty and data_[ read_ptr_ ]
         // contains the next element to read from.
+#if defined BLUETOE_VERIF && defined BLUETOE_VERIF_RING_ATOMIC_INT
+        // verification seam: a type with the interface of std::atomic_int that lets a
+        // deterministic scheduler interleave producer and consumer at every load / store
+        BLUETOE_VERIF_RING_ATOMIC_INT read_ptr_;
+        BLUETOE_VERIF_RING_ATOMIC_INT write_ptr_;
+#else
         std::atomic_int read_ptr_;
         std::atomic_int write_ptr_;
+#endif
 
         static constexpr std::size_t length = S + 1;
 
@@ -57,6 +64,9 @@ namespace details {
         if ( next == read )
             return false;
 
+#if defined BLUETOE_VERIF && defined BLUETOE_VERIF_RING_DATA_ACCESS
+        BLUETOE_VERIF_RING_DATA_ACCESS();
+#endif
         data_[ write ] = in;
         write_ptr_.store( next );
 
@@ -74,6 +84,9 @@ namespace details {
 
         const int next  = ( read + 1 ) % length;
 
+#if defined BLUETOE_VERIF && defined BLUETOE_VERIF_RING_DATA_ACCESS
+        BLUETOE_VERIF_RING_DATA_ACCESS();
+#endif
         out = data_[ read ];
         read_ptr_.store( next );
 
